@@ -58,6 +58,7 @@ HasFp(b, f) == \E i \in 1..Len(b) : (IF Len(b[i]) = 2 THEN b[i][1] ELSE b[i]) = 
 
 Apply(s, e) ==
   LET tr == T  ps == IF e.k > 0 THEN ptab[e.k] ELSE <<>> IN
+  IF e.op = "fail" THEN s ELSE      \* a call the library rejected (a full cuckoo filter that may not / cannot grow): the export is what it was
   CASE tr.kind = "bloom" ->
          (IF e.op = "add" THEN [bits |-> SetAll(s.bits, ps, 1), n |-> s.n + 1] ELSE [bits |-> NoBits(tr.m), n |-> 0])
     [] tr.kind = "cbloom" ->
